@@ -216,6 +216,12 @@ func (ms *Modules) add(n Node) error {
 		return fmt.Errorf("duplicate %s %s at %s and %s", kind, fullName, Source(o), Source(n))
 	}
 	m[fullName] = mod
+	// What the namespace lookup remembers was worked out for the modules
+	// loaded so far: with one more, a namespace may denote another module,
+	// or two.
+	ms.nsMu.Lock()
+	ms.byNS = map[string]*Module{}
+	ms.nsMu.Unlock()
 	if fullName == name {
 		return nil
 	}
